@@ -1,31 +1,57 @@
 (* C15 - the canonical model stays a well-formed tree under any sequence of API calls.
-   M = Model/Heap.v (step), S = Spec/ModelWF.v (WF, wf_b), triggers of the recorded findings =
-   Model/HeapTriggers.v, proofs = Proofs/C15/*.v, refutations = Findings/C15.v.
+   M = Model/Heap.v (step), S = Spec/ModelWF.v (WF, wf_b), representation invariant of the private
+   state = Model/HeapRep.v (Rep: Region._users is the set of referencing elements, every Region has an
+   id), proofs = Proofs/C15/*.v.
 
-   Full statement (false of the faithful model, see Findings/C15.v: eight call shapes break it):
-       forall h c, WF h -> WF (fst (step h c))
-       forall h c e, WF h -> single_element c = true -> snd (step h c) = ORaised e -> fst (step h c) = h
-   Proved: the same for every call whose `trigger` is None (atomicity: whose trigger is not 4);
-   nothing else is excluded. *)
+   The full statement holds of the model of the repaired code, for every call and every argument:
+       Inv h := WF h /\ Rep h
+       forall h c, Inv h -> Inv (fst (step h c))
+       forall elems ndoc calls, elems_ok elems ndoc = true -> WF (run (init elems ndoc) calls)
+       forall h c e, Inv h -> single_element c = true -> snd (step h c) = ORaised e -> fst (step h c) = h
+   No call shape is excluded any more (Findings/C15.v is empty). *)
 From Coq Require Import List Arith Bool.
 From TT Require Import Proofs.C15.All.
 Import ListNotations.
 
-Theorem C15_wf_init : forall elems ndoc, elems_ok elems ndoc = true -> WF (init elems ndoc).
-Proof. exact init_WF. Qed.
+Theorem C15_wf_init : forall elems ndoc, elems_ok elems ndoc = true -> WF (init elems ndoc) /\ Rep (init elems ndoc).
+Proof. exact init_Inv. Qed.
 
-Theorem C15_wf_step_partial : forall h c,
-  WF h -> trigger h c = None -> WF (fst (step h c)).
-Proof. exact step_WF. Qed.
+(* every call - accepted or rejected, whatever its arguments - preserves well-formedness (together with
+   the representation invariant that remove_region and put_region rely on) *)
+Theorem C15_wf_step : forall h c, WF h /\ Rep h -> WF (fst (step h c)) /\ Rep (fst (step h c)).
+Proof. exact step_Inv. Qed.
 
-Theorem C15_reachable_partial : forall elems ndoc calls,
-  elems_ok elems ndoc = true -> admissible (init elems ndoc) calls = true -> WF (run (init elems ndoc) calls).
+(* hence every reachable state is well formed: all finite call sequences, no hypothesis on the calls *)
+Theorem C15_reachable : forall elems ndoc calls,
+  elems_ok elems ndoc = true -> WF (run (init elems ndoc) calls).
 Proof. exact reachable_WF. Qed.
 
-Theorem C15_atomic_partial : forall h c e,
-  WF h -> single_element c = true -> trigger h c <> Some 4 ->
-  snd (step h c) = ORaised e -> fst (step h c) = h.
+(* a rejected single-element call (every method except push_children, remove_children and the two copy_to)
+   leaves the model unchanged; this covers the methods added to the machine: remove_animation_step,
+   remove_initial_value, set_text, the five document parameters and every read-only method *)
+Theorem C15_atomic : forall h c e,
+  WF h /\ Rep h -> single_element c = true -> snd (step h c) = ORaised e -> fst (step h c) = h.
 Proof. exact step_atomic. Qed.
+(* ... and a rejected Ruby/Rtc push_children too (the prefix that was pushed is removed again) *)
+Theorem C15_push_children_atomic : forall h s cs e,
+  WF h /\ Rep h -> ordered_kind (kind_of h s) = true -> snd (step h (CPushChildren s cs)) = ORaised e ->
+  fst (step h (CPushChildren s cs)) = h.
+Proof. exact push_children_atomic. Qed.
+(* ContentDocument.copy_to is never rejected (so it cannot be half applied either) *)
+Theorem C15_doc_copy_to_total : forall h d dst, WF h -> d < ndocs h -> exists h', doc_copy_to h d dst = ROk h'.
+Proof. exact doc_copy_to_total. Qed.
+(* the read-only methods change nothing *)
+Theorem C15_query_pure : forall h q, fst (step h (CQuery q)) = h.
+Proof. exact step_query_pure. Qed.
+
+(* fuel adequacy: the link walks of the model are given `nnodes h` (+1) units of fuel; on a well-formed
+   heap a chain of parents has no repetition, so that is enough and no call ever answers EFuel *)
+Theorem C15_no_fuel : forall h c, WF h /\ Rep h -> snd (step h c) <> ORaised EFuel.
+Proof. exact step_no_fuel. Qed.
+Theorem C15_dfs_fuel : forall h k s, WF h -> s < nnodes h -> nnodes h <= k -> dfs k h s <> None.
+Proof. exact WF_dfs_total. Qed.
+Theorem C15_ancestors_bound : forall h i l, WF h -> i < nnodes h -> Path h i l -> S (length l) <= nnodes h.
+Proof. exact WF_Path_length. Qed.
 
 (* the doubly linked child lists against the abstraction `children : element -> list element` *)
 Theorem C15_push_child_dll : forall h s c cs,
@@ -43,32 +69,55 @@ Proof. exact remove_child_dll. Qed.
 Theorem C15_acyclic : forall h i, WF h -> i < nnodes h -> ~ up h i i.
 Proof. exact WF_no_cycle. Qed.
 
-(* only values of the property's documented type pass validate (each font-family item included) *)
+(* exactly the values of the property's documented type pass validate (each font-family item included) *)
 Theorem C15_validate_sound : forall p v, validate p v = VTrue -> spec_valid p v = true.
 Proof. exact validate_sound. Qed.
+Theorem C15_validate_iff : forall p v, validate p v = VTrue <-> spec_valid p v = true.
+Proof. exact validate_iff. Qed.
 
-(* the executable checker that judges the dumped object graphs is sound for WF *)
+(* the executable checker that judges the dumped object graphs is equivalent to the specification *)
 Theorem C15_wf_b_sound : forall h, wf_b h = true -> WF h.
 Proof. exact wf_b_sound. Qed.
+Theorem C15_wf_b_complete : forall h, WF h -> wf_b h = true.
+Proof. exact wf_b_complete. Qed.
+Theorem C15_wf_b_iff : forall h, wf_b h = true <-> WF h.
+Proof. exact wf_b_iff. Qed.
+Theorem C15_rep_b_iff : forall h, rep_b h = true <-> Rep h.
+Proof. exact rep_b_iff. Qed.
 
-(* the hypotheses are satisfiable by non-trivial histories *)
+(* the hypotheses are satisfiable by non-trivial histories; the former findings' call shapes are part of
+   this one and leave the model well formed *)
 Example C15_example_history :
   let elems := [(KBody, Some 0, None); (KDiv, Some 0, None); (KP, Some 0, None); (KSpan, Some 0, None);
-                (KRegion, Some 0, Some 1); (KRuby, Some 0, None); (KRb, Some 0, None); (KRt, Some 0, None)] in
+                (KRegion, Some 0, Some 1); (KRuby, Some 0, None); (KRb, Some 0, None); (KRt, Some 0, None);
+                (KRegion, Some 0, Some 1); (KRtc, None, None); (KRbc, Some 0, None)] in
   let calls := [CPushChild 0 1; CPushChild 1 2; CPushChild 2 3; CPutRegion 0 4; CSetBody 0 (Some 0);
-                CSetRegion 2 (Some 4); CPushChildren 5 [6; 7]; CPushChild 2 5; CPushChild 3 2; CSetDoc 5 None;
+                CSetRegion 2 (Some 4); CSetRegion 5 (Some 4); CSetRegion 3 (Some 8); CPutRegion 0 8;
+                CPushChildren 5 [6; 7]; CPushChild 2 5; CPushChild 3 2; CPushChildren 5 [10; 9];
                 CSetStyle 3 (PValid PFontFamily) (Some (VTuple [FStr; FGeneric]));
-                CSetStyle 3 (PValid PFontFamily) (Some (VTuple [FOther])); CRemoveRegion 0 1; CRemove 3] in
-  elems_ok elems 1 = true /\ admissible (init elems 1) calls = true /\
-  n_region (nd (run (init elems 1) calls) 2) = None /\ n_parent (nd (run (init elems 1) calls) 5) = Some 2.
+                CSetStyle 3 (PValid PFontFamily) (Some (VTuple [FOther])); CRemoveRegion 0 1; CRemove 3; CSetDoc 0 None;
+                CQuery (QDfs 0)] in
+  let h := run (init elems 1) calls in
+  elems_ok elems 1 = true /\ wf_b h = true /\ rep_b h = true /\
+  n_region (nd h 2) = None /\ n_region (nd h 5) = None /\ n_parent (nd h 5) = Some 2 /\ n_doc (nd h 5) = None /\ n_doc (nd h 3) = Some 0.
 Proof. vm_compute. repeat split. Qed.
 
 Print Assumptions C15_wf_init.
-Print Assumptions C15_wf_step_partial.
-Print Assumptions C15_reachable_partial.
-Print Assumptions C15_atomic_partial.
+Print Assumptions C15_wf_step.
+Print Assumptions C15_reachable.
+Print Assumptions C15_atomic.
+Print Assumptions C15_push_children_atomic.
+Print Assumptions C15_doc_copy_to_total.
+Print Assumptions C15_query_pure.
+Print Assumptions C15_no_fuel.
+Print Assumptions C15_dfs_fuel.
+Print Assumptions C15_ancestors_bound.
 Print Assumptions C15_push_child_dll.
 Print Assumptions C15_remove_child_dll.
 Print Assumptions C15_acyclic.
 Print Assumptions C15_validate_sound.
+Print Assumptions C15_validate_iff.
 Print Assumptions C15_wf_b_sound.
+Print Assumptions C15_wf_b_complete.
+Print Assumptions C15_wf_b_iff.
+Print Assumptions C15_rep_b_iff.
